@@ -35,6 +35,24 @@ def err_variant(t):
     return None
 
 
+def only_map_fixed_test(fs):
+    """facts at an Err(MapFixed) return: the MAP_FIXED test itself (any spelling) and the Some-ness of an optional flags word;
+    returns the list of OTHER conditions on that path (must be empty: MAP_FIXED is refused for every request, not some)"""
+    extra = []
+    for r in fs:
+        if r[0] == 'cmp' and any(match(BIN("BitAnd", ANY, K(MAP_FIXED)), x, {}) for x in (r[2], r[3])):
+            continue
+        if r[0] == 'discr' and any(s[0] == 'field' and s[2] == 'flags' for s in subterms(deep_strip(r[1]))):
+            continue
+        # the raw-pointer path (nothing is mapped there) is split off before the test
+        if r[0] in ('discr', 'bool') and any(s[0] == 'field' and s[2] == 'raw_ptr' for s in subterms(deep_strip(r[1]))):
+            continue
+        if r[0] == 'cmp' and r[1] in ('Eq', 'Ne') and any(x == ('const', 0) for x in (r[2], r[3])) and any(deep_strip(x)[0] == 'const' for x in (r[2], r[3])) and all(deep_strip(x)[0] == 'const' for x in (r[2], r[3])):
+            continue
+        extra.append(facts_str([r])[:80])
+    return extra
+
+
 def rule_check_file_offset(ctx, prog):
     b = prog.one(name="check_file_offset", path_re=r"^mmap::check_file_offset$")
     seen = set()
@@ -83,7 +101,8 @@ def rule_unix_build(ctx, prog):
         if err_variant(t) == "MapFixed":
             fs = b.facts_at(pos)
             ok = any(r[0] == 'cmp' and r[1] == 'Ne' and r[3] == ('const', 0) and match(BIN("BitAnd", F(P(1), "flags"), K(MAP_FIXED)), r[2], {}) for r in fs)
-            ctx.ob("R15.1.map_fixed_outcome", b.key, ok, b.where(), "Err(MapFixed) iff self.flags & MAP_FIXED != 0")
+            extra = only_map_fixed_test(fs)
+            ctx.ob("R15.1.map_fixed_outcome", b.key, ok and not extra, b.where(), f"Err(MapFixed) iff self.flags & MAP_FIXED != 0 (other conditions on this path: {extra})")
     # (fd, offset): file present => check_file_offset(f, self.size) succeeded
     a = [unref(x) for x in c.args()]
     agree = match(F(P(1), "size"), a[1], {}) and match(F(P(1), "prot"), a[2], {}) and match(F(P(1), "flags"), a[3], {})
@@ -306,7 +325,8 @@ def rule_xen(ctx, prog):
         if err_variant(t) == "MapFixed":
             fs = b.facts_at(pos)
             ok = any(r[0] == 'cmp' and r[1] == 'Ne' and r[3] == ('const', 0) and match(BIN("BitAnd", ANY, K(MAP_FIXED)), r[2], {}) for r in fs)
-            ctx.ob("R15.1.xen_map_fixed_outcome", b.key, ok, b.where(), "Err(MapFixed) iff flags & MAP_FIXED != 0")
+            extra = only_map_fixed_test(fs)
+            ctx.ob("R15.1.xen_map_fixed_outcome", b.key, ok and not extra, b.where(), f"Err(MapFixed) iff flags & MAP_FIXED != 0 (other conditions on this path: {extra})")
     # ---- validate_file
     b = prog.one(name="validate_file", path_re=r"^mmap::xen::validate_file$")
     seen = set()
